@@ -12,7 +12,7 @@ for d in sorted(glob.glob(os.path.join(ROOT, 'seeded', '*'))):
     det = m.get('detected_by', [])
     first = '; '.join('%s: %s' % (p, (r.get('first') or '').replace('key=', '').split(' case=')[0]) for p, r in m.get('checks_run', {}).items() if r.get('exit') == '1')
     rows.append((name, m.get('property', ''), (m.get('title') or m.get('what_it_breaks') or '')[:110].replace('|', '/'),
-                 (m.get('needs_to_manifest') or '')[:160].replace('|', '/').replace('\n', ' '), ', '.join(det) or '**missed**', first[:120], m.get('history', '')))
+                 (m.get('needs_to_manifest') or '')[:160].replace('|', '/').replace('\n', ' '), ', '.join(det) or ('not detected: behaviour the statement leaves open' if m.get('outside_statement') else '**missed**'), first[:120], m.get('history', '')))
 with open(os.path.join(ROOT, 'seeded', 'INDEX.md'), 'w') as f:
     f.write('# Seeded defects (written by independent sub-agents from the property text only)\n\n')
     f.write('Each directory: `patch.diff` (applies to /repo HEAD at the time it was confirmed), `demo.c` + `build_demo.sh` (exit 0 clean, non-zero mutated), `meta.json`.\n')
@@ -21,7 +21,8 @@ with open(os.path.join(ROOT, 'seeded', 'INDEX.md'), 'w') as f:
     for r in rows:
         f.write('| %s | %s | %s | %s | %s | %s | %s |\n' % r)
     own = sum(1 for r in rows if r[1] and r[1] in r[4])
-    other = sum(1 for r in rows if r[4] != '**missed**' and not (r[1] and r[1] in r[4]))
-    f.write('\n%d seeds: %d detected by the quick tier of their own property\'s check, %d only by another property\'s check (see history), %d missed.\n'
-            % (len(rows), own, other, sum(1 for r in rows if r[4] == '**missed**')))
+    open_ = sum(1 for r in rows if r[4].startswith('not detected'))
+    other = sum(1 for r in rows if r[4] != '**missed**' and not r[4].startswith('not detected') and not (r[1] and r[1] in r[4]))
+    f.write('\n%d seeds: %d detected by the quick tier of their own property\'s check, %d only by another property\'s check (see history), %d change behaviour the statement leaves open and are not detected (see history), %d missed.\n'
+            % (len(rows), own, other, open_, sum(1 for r in rows if r[4] == '**missed**')))
 print(len(rows), 'seeds')
